@@ -147,13 +147,45 @@ pub fn prime<F: PrimeField + MontInfo>(t: &mut Tally, name: &str, rng: &mut Rng)
     // ---- canonical range
     let top_elem = F::from_bigint(F::MODULUS_MINUS_ONE_DIV_TWO).map(|h| h + h);
     t.check(top_elem == Some(-F::ONE) && F::from_bigint(F::MODULUS).is_none(), || format!("{name}: from_bigint range"));
+    arith_samples::<F>(t, name, rng, &p);
+}
+
+/// The arithmetic the derive macro GENERATES for this modulus (unrolled add/sub/double/neg/mul/square for the shipped limb
+/// count) against integers: structured operands whose limbs are drawn from {0, 1, 2^63, 2^64-2, 2^64-1, random} (reduced
+/// mod p), values next to 0 and p, and uniformly random ones.  Sampled: the generated multiplication for N >= 3 is outside
+/// the reach of the derive-grid proofs (resource limit), so this is the only check of it at the shipped sizes.
+fn arith_samples<F: PrimeField>(t: &mut Tally, name: &str, rng: &mut Rng, p: &BigUint) {
+    let n = ((F::MODULUS_BIT_SIZE + 63) / 64) as usize;
+    let pool = [0u64, 1, 1 << 63, u64::MAX - 1, u64::MAX, 0x8000_0000_0000_0001, 0x7fff_ffff_ffff_ffff];
+    let mk = |limbs: Vec<u64>| -> BigUint { limbs_to_big(&limbs) % p };
+    let mut ops: Vec<BigUint> = vec![0u8.into(), 1u8.into(), 2u8.into(), p - 1u8, p - 2u8, (p - 1u8) >> 1u32, ((p - 1u8) >> 1u32) + 1u8];
+    for &w in &pool { ops.push(mk(vec![w; n])); }
+    for k in 0..n { let mut v = vec![0u64; n]; v[k] = u64::MAX; ops.push(mk(v.clone())); v[k] = 1; ops.push(mk(v)); let mut w = vec![u64::MAX; n]; w[k] = 0; ops.push(mk(w)); }
+    for _ in 0..40 { ops.push(mk((0..n).map(|_| { let r = rng.next(); if r % 3 == 0 { rng.next() } else { pool[(r % 7) as usize] } }).collect())); }
     let mut r = rng.std();
-    for _ in 0..4 {
-        let a = F::rand(&mut r);
-        let b = F::rand(&mut r);
-        let (ia, ib) = (to_big(&a), to_big(&b));
-        t.check(to_big(&(a * b)) == (&ia * &ib) % &p && to_big(&(a + b)) == (&ia + &ib) % &p && to_big(&(a - b)) == (&ia + &p - &ib) % &p && to_big(&a.square()) == (&ia * &ia) % &p, || format!("{name}: arithmetic vs integers on random operands"));
+    for _ in 0..20 { ops.push(to_big(&F::rand(&mut r))); }
+    let fe = |x: &BigUint| F::from_le_bytes_mod_order(&x.to_bytes_le());
+    let mut bad: Option<String> = None;
+    let mut cases = 0u64;
+    for (i, ia) in ops.iter().enumerate() {
+        let a = fe(ia);
+        if to_big(&a) != *ia { bad.get_or_insert(format!("from_le_bytes_mod_order({ia}) reads back {}", to_big(&a))); }
+        let chk1 = to_big(&a.square()) == (ia * ia) % p && to_big(&a.double()) == (ia * 2u8) % p && to_big(&(-a)) == (p - ia) % p;
+        if !chk1 { bad.get_or_insert(format!("square / double / neg of {ia}")); }
+        if let Some(inv) = a.inverse() { if to_big(&(inv * a)) != BigUint::one() % p { bad.get_or_insert(format!("inverse of {ia}")); } } else if ia.bits() != 0 { bad.get_or_insert(format!("inverse of {ia} is None")); }
+        cases += 4;
+        // pair every operand with a window of the others (all pairs would be ~10^4 per field; the window keeps it ~2500)
+        for d in 0..24usize {
+            let ib = &ops[(i + d * 5 + 1) % ops.len()];
+            let b = fe(ib);
+            let ok = to_big(&(a * b)) == (ia * ib) % p && to_big(&(a + b)) == (ia + ib) % p && to_big(&(a - b)) == (ia + p - ib) % p;
+            let mut m = a; m *= &b; let mut s2 = a; s2 += &b; let mut d2 = a; d2 -= &b;
+            if !(ok && m == a * b && s2 == a + b && d2 == a - b) { bad.get_or_insert(format!("mul / add / sub of {ia} and {ib}")); }
+            cases += 3;
+        }
     }
+    t.cases += cases;
+    if let Some(w) = bad { t.check(false, || format!("{name}: generated arithmetic disagrees with integers: {w}")); }
 }
 
 /// nonresidue / helper facts that need the extension's configuration type
